@@ -35,7 +35,12 @@ txmode directives), every number `t0` of files applied by earlier runs, every cr
   count, any revision table): the state after a crash is exactly the operations performed before it, applied
   in order - whatever ran is durable, nothing is ever undone.
 
-PARTIAL: directories with failing statements under a crash in file mode, the re-run from a half-applied file of a
+* `crash_file_any` — `--tx-mode file` for ANY directory without directives (failing statements anywhere, any
+  count, any revision table, repaired `mayCommit`): the state after a crash at any point is the state after a
+  complete, successful run over the first `t` pending files, for some `t` - no file is ever half-applied.
+
+PARTIAL: the number `t` of `crash_file_any` is not tied to the crash point (that it is the number of blocks
+completed before it) for directories with failing statements, the re-run from a half-applied file of a
 directive mix, crashes of the re-run itself in none mode (duplicates then add up: one per crash), and
 SQLite's own recovery are not covered by these theorems; the correspondence run covers them on the real
 engine.
@@ -45,6 +50,7 @@ import Lemmas.TxCount
 import Lemmas.TxMixed
 import Lemmas.TxAllAtomic
 import Lemmas.TxNonePlain
+import Lemmas.TxFileBlocks
 
 namespace Props.C10
 open Atlas.Tx
@@ -475,5 +481,24 @@ theorem crash_none_any (cfg : Cfg) (hm : cfg.mode = .none) (dir : List TFile)
 example :
     let dir : List TFile := [{ ok := [true, true] }, { ok := [true, false] }]
     crashAt {} (plan { mode := .none } dir {}).1 6 = { journal := [(0,0),(0,1)], revs := [⟨2,2,false⟩] } := by decide
+
+/-- **crash_file_any**: `--tx-mode file`, any directory without directives (failing statements anywhere), any
+count and revision table, any crash point: the durable state is that of a complete, successful run over the
+first `t` pending files. -/
+theorem crash_file_any (cfg : Cfg) (hm : cfg.mode = .file) (hfix : cfg.fixed = true) (hdr : cfg.dryRun = false)
+    (dir : List TFile) (hd : ∀ f ∈ dir, f.directive = none) (db : Db) (k : Nat) :
+    ∃ t, t ≤ (limit cfg.count (dir.drop (pendingStart db))).length ∧
+      (planFiles cfg db false (pendingStart db) ((limit cfg.count (dir.drop (pendingStart db))).take t)).2 = true ∧
+      crashAt db (plan cfg dir db).1 k =
+        runAll db (planFiles cfg db false (pendingStart db) ((limit cfg.count (dir.drop (pendingStart db))).take t)).1 :=
+  plan_file_crash_any cfg hm hfix hdr dir hd db k
+
+/-- premises met: the second file fails at its second statement: at every one of the 15 crash points the database
+is empty or holds exactly file 1. -/
+example :
+    let dir : List TFile := [{ ok := [true, true] }, { ok := [true, false] }, { ok := [true] }]
+    (plan { mode := .file } dir {}).1.length = 15 ∧
+    ∀ k < 16, crashAt {} (plan { mode := .file } dir {}).1 k = {} ∨
+      crashAt {} (plan { mode := .file } dir {}).1 k = { journal := [(0,0),(0,1)], revs := [⟨2,2,false⟩] } := by decide
 
 end Props.C10
